@@ -6,19 +6,21 @@ import statefns
 import nonls
 sys.path.insert(0, os.path.join(os.path.dirname(os.path.abspath(__file__)), '..', 'C03'))
 import protocol
+import precond_smt
 
 
 def build(tier):
-    # csearch_t::search itself is proved by ./check C03 (same contract text, specs/C03/protocol.h)
-    prox = [t for t in protocol.targets(['NV_C02']) if t.name != 'csearch_search']
+    prox = protocol.targets(['NV_C02'])
     return {
-        'targets': common.targets(['NV_C02']) + statefns.targets() + nonls.targets() + prox, 'vcs': [],
+        'targets': common.targets(['NV_C02']) + statefns.targets() + nonls.targets() + prox, 'vcs': precond_smt.vcs(),
         'decided': ['solver_t::done decision protocol; lsearch_t::get; do_minimize of gd / cgd-* / lbfgs / bfgs,dfp,sr1,hoshino,fletcher (17 solvers share these four bodies): status in {converged, max_iters, failed}; unless failed the returned state is valid (finite value and point); the reported (x, f, g) is one consistent evaluation; reported evaluation counts <= evaluations performed; the budget loop terminates and overshoots max_evals by at most one line search (<= 10*max_iterations evaluations, C07: CG_DESCENT alone may take 7*max_iterations+1)',
                     'contract refinement lemma: the C07 contract of lsearchk_t::get implies the contract the solvers rely on',
                     'solver_state_t::update_if_better (both overloads): isfinite(fx) && fx < m_fx <=> the triple (x, gx, fx) is stored (constraint values recomputed from it) and true is returned, otherwise the triple is unchanged; the best value never increases; both histories grow by exactly one and record a positive improvement exactly when the state was replaced (IEEE subtraction, not uninterpreted); value_test(patience) = its three documented cases for every history (loop contract, all indices in bounds); update_calls; valid() => finite value and point',
                     'solver_t::minimize: a dimension mismatch throws before any evaluation; the statistics are cleared before do_minimize (discharges the precondition nv_ver_counter == 0 of every body contract)',
-                    'do_minimize of sgm, ellipsoid, cocob, osga, pgm, dgm, fgm, asga2, asga4, sda/wda (pdsgm), fpba1/2 (+ its nesterov lambda), rqb, gs/ags/gs-lbfgs/ags-lbfgs (+ gsample::lsearch_t::step), and solver_penalty_t::minimize (linear / quadratic penalty): status in {converged, max_iters, failed}; the reported value (and sub-gradient, except osga which keeps the starting sub-gradient) is the function at the reported point -- vectors carry ghost identities, every possible write is accounted for from the AST (specs/solver/vectrack.py); reported counts <= evaluations performed (separate value / gradient counters); unless failed the value and the point are finite; ret.fx <= f(x0) for the update_if_better solvers; the budget loop terminates and overshoots max_evals by at most one outer iteration (inner trial loops bounded by their registered parameter domains); penalty: the reported value is the OBJECTIVE at the reported point'],
-        'not_decided': ['f <= f0 for line-search solvers, rqb and the gradient sampling solvers (Armijo-like arithmetic)', 'the numeric overshoot bound 1100+8n (the proved bounds are per outer iteration in evaluations, see NV_NONLS_ENSURES)',
+                    'do_minimize of sgm, ellipsoid, cocob, osga, pgm, dgm, fgm, asga2, asga4, sda/wda (pdsgm), fpba1/2 (+ its nesterov lambda), rqb, gs/ags/gs-lbfgs/ags-lbfgs (+ gsample::lsearch_t::step), and solver_penalty_t::minimize (linear / quadratic penalty): status in {converged, max_iters, failed}; the reported value (and sub-gradient, except osga which keeps the starting sub-gradient) is the function at the reported point -- vectors carry ghost identities, every possible write is accounted for from the AST (specs/solver/vectrack.py); reported counts <= evaluations performed (separate value / gradient counters); unless failed the value and the point are finite; ret.fx <= f(x0) for the update_if_better solvers; the budget loop terminates and overshoots max_evals by at most one outer iteration (inner trial loops bounded by their registered parameter domains); penalty: the reported value is the OBJECTIVE at the reported point',
+                    'f <= f0 mechanism of the gradient sampling solvers, over the reals (SMT): lbfgs_preconditioner_t::update(sampler, state, epsilon) leaves W and H positive definite (restart from (1/miu) I, miu I with miu > 0; a curvature pair is admitted only with d.y >= gamma*epsilon > 0), update(alpha) keeps miu > 0, the identity preconditioner is never modified; gsample::lsearch_t::step with a positive semi-definite H moves the state only to a point of strictly smaller value (both loops, deterministic function along the ray)',
+                    'f <= f0 mechanism of RQB: csearch_t::search reports descent_step / cutting_plane_step / null_step only for a trial that passed the corresponding tests in this call (sufficient descent f(centre) - fy >= m1*delta for the serious steps), and solver_rqb_t::do_minimize moves its state only to such a trial of the last search'],
+        'not_decided': ['f <= f0 for the line-search solvers (Armijo arithmetic); for RQB the last step delta >= 0 (erased numerics); for the gradient sampling solvers the composition needs the sampling radius epsilonk > 0 at every preconditioner update (a product of positive reals in do_minimize, not extracted) and that do_minimize hands the preconditioner\'s own H to the line search', 'the numeric overshoot bound 1100+8n (the proved bounds are per outer iteration in evaluations, see NV_NONLS_ENSURES)',
                         'solver_augmented_lagrangian_t (C05 proves its outer loop), do_minimize of the two penalty solvers (two lines: construct the penalty function, call minimize)',
                         'budget of the penalty solvers (per inner solve: the inner solver is used through an assumed contract)'],
         'assumptions': ['solver_state_t{function, x0} and state.update(x) are one evaluation at the given point; function_t::fcalls()/gcalls() count exactly those evaluations (assumed contracts)',
@@ -26,7 +28,8 @@ def build(tier):
                         'the function is a deterministic map from points to values (prophecy field fval of a vector identity) and is non-finite at non-finite points (DESIGN 7, C02)',
                         'assumed contracts transcribed from proved ones: state.update_if_better (specs/C02/state.h -> nv_state_uib), bundle_t::moveto/append/solve/econverged/sconverged and the bundle constructor (specs/C03/bundle.h -> protocol view nv_pb_*), state.update(x, gx, fx) stores the triple as given',
                         'erased callees are pure by signature: asga solve_sk1 / lsearch_done, osga proxy_t, pdsgm model_t, proximity_t, nesterov_sequence_t, gsample sampler / preconditioner / perturbation (sampler.sample evaluates the function between 1 and 2n times with gradients)',
-                        'the inner solver of the penalty methods returns a state of the penalty function: nothing about the objective is assumed of it'],
+                        'the inner solver of the penalty methods returns a state of the penalty function: nothing about the objective is assumed of it',
+                        'linear algebra behind the ghost flag positive definite (specs/C02/precond_smt.py): s*I is positive definite iff s > 0; the BFGS / DFP update statements of lbfgs_preconditioner_t::update keep W and H positive definite when every scalar they divide by (d.y) is positive; g.H.g >= 0 for a positive semi-definite H; double treated as real in these VCs'],
         'trusted': [],
     }
 
@@ -35,6 +38,12 @@ def replay(rp):
     """protocol counterexamples of solver_t::done / do_minimize are driven on the real solvers by a scripted function"""
     import replaylib
     out = {'reproduced': False, 'runs': []}
+    if 'lbfgs_update' in rp['target'] or 'step_decreases_value' in rp['target']:
+        exe = replaylib.build_with_library('replay/C02_gslbfgs_replay.cpp', 'C02_gslbfgs_replay')
+        rc, so, se = replaylib.run_driver(exe, [300], timeout=600)
+        out['runs'].append({'exit': rc, 'output': so.strip()[-3000:]})
+        out['reproduced'] = rc == 1
+        return out
     if 'gs_' in rp['target']:
         exe = replaylib.build_with_library('replay/C02_gs_replay.cpp', 'C02_gs_replay')
         rc, so, se = replaylib.run_driver(exe, [])
